@@ -292,8 +292,8 @@ pub fn run(run: &mut Run) {
     run.technique = "proptest random search with shrinking over (pattern, length, seed, scale, merge history); oracle = exact big-integer sum and sum of magnitudes with the bound K u sum|x|, one constant K for every merge history".into();
     run.rule = "float sequences (f32/f64; constant, same-sign, mixed magnitude over 2^±10 with mixed signs, cancelling pairs, one huge then many small, increments far below the running sum; lengths 0..10^6 quick / 10^7 thorough) x histories (+= stream, + by value, from/new start, left and right folds of registers, balanced tree, random tree, folds with empty registers); non-trivial = n >= 64 and (same-sign or |S| >= sum|x|/8), or a merge whose right operand carries non-zero compensation; distinct = all case parameters".into();
     let (cases, shards) = match run.tier {
-        crate::engine::Tier::Quick => (4_000u32, 16usize),
-        crate::engine::Tier::Thorough => (80_000, 64),
+        crate::engine::Tier::Quick => (12_000u32, 32usize),
+        crate::engine::Tier::Thorough => (400_000, 256),
     };
     let seed = run.seed_for("random", 0);
     run.par(shards, |shard, obs| {
